@@ -899,6 +899,10 @@ def judge_history(ctx, res, trees, jobs, runs, tag, origin):
 LIBCFG = '<?xml version="1.0"?>\n<def>\n  <memory>\n    <alloc>%s</alloc>\n    <dealloc>myfree</dealloc>\n  </memory>\n</def>\n'
 
 
+DIGIT_A = "int scale(void) {\n    int x = 5;\n    int x1 = 0;\n    return 10 /\nx1\n" + "\n" * 10 + "    ;\n}\n"
+DIGIT_B = "int scale(void) {\n    int x = 5;\n    int x1 = 0;\n    return 10 /\n" + "\n" * 10 + "x\n    ;\n}\n"
+
+
 class Gen:
     def __init__(self, rng):
         self.rng = rng
@@ -942,6 +946,8 @@ class Gen:
         if rng.random() < 0.3:
             tree["p.c"] = '#include "p.h"\n' + self.bug_line() + "\n"
             tree["p.h"] = ""
+        if rng.random() < 0.3:
+            tree["dm.c"] = DIGIT_A
         if rng.random() < 0.25:
             tree["my.cfg"] = LIBCFG % "myalloc"
             tree["lc.c"] = "void *myalloc(int); void *otheralloc(int); void myfree(void*);\nvoid fl%d(void){ void *p = myalloc(3); (void)p; }\n" % self.fresh()
@@ -956,6 +962,10 @@ class Gen:
         rng = self.rng
         t = dict(tree)
         cs = sources(t)
+        if "dm.c" in t and rng.random() < 0.25:
+            # field-boundary edit: the token `x1` alone on line 5 becomes `x` alone on line 15, every other token keeps text, line and column
+            t["dm.c"] = DIGIT_B if t["dm.c"] == DIGIT_A else DIGIT_A
+            return "digit-migrate", t
         if "my.cfg" in t and rng.random() < 0.2:
             t["my.cfg"] = LIBCFG % ("otheralloc" if "<alloc>myalloc" in t["my.cfg"] else "myalloc")
             return "libfile", t
